@@ -435,12 +435,20 @@ func visitInstr(fr *frame, instr ssa.Instruction) continuation {
 		idx := fr.get(instr.Index)
 		switch x := x.(type) {
 		case []value:
+			if si, ok := idx.(sym); ok && symSelectable(instr, x) {
+				fr.set(instr, symElemPtr{x, si})
+				break
+			}
 			fr.set(instr, &x[checkIndex(idx, len(x), "slice")])
 		case *value: // *array
 			if x == nil {
 				panic(goRuntimeError("runtime error: invalid memory address or nil pointer dereference"))
 			}
 			a := (*x).(array)
+			if si, ok := idx.(sym); ok && symSelectable(instr, a) {
+				fr.set(instr, symElemPtr{a, si})
+				break
+			}
 			fr.set(instr, &a[checkIndex(idx, len(a), "array")])
 		default:
 			panic(fmt.Sprintf("unexpected x type in IndexAddr: %T", x))
@@ -454,6 +462,10 @@ func visitInstr(fr *frame, instr ssa.Instruction) continuation {
 		case array:
 			fr.set(instr, copyVal(x[checkIndex(idx, len(x), "array")]))
 		case string:
+			if si, ok := idx.(sym); ok && len(x) > 0 && len(x) <= 256 {
+				fr.set(instr, selectByte(x, si))
+				break
+			}
 			fr.set(instr, x[checkIndex(idx, len(x), "string")])
 		case sstr:
 			fr.set(instr, x.b[checkIndex(idx, len(x.b), "string")])
@@ -847,4 +859,139 @@ func infoOf(fn *ssa.Function) *fnInfo {
 
 func (fr *frame) set(k ssa.Value, v value) {
 	fr.env[fr.idx[k]] = v
+}
+
+// selectByte returns x[idx] for a concrete string and a symbolic index as an
+// if-then-else term (after forking on the bounds check), avoiding one fork per value.
+func selectByte(x string, si sym) value {
+	w := si.t.w
+	n := len(x)
+	t64 := Resize(si.t, 64, kindSigned(si.k))
+	var inb *Term
+	if kindSigned(si.k) {
+		inb = And(Bin(OSle, BV(64, 0), t64), Bin(OSlt, t64, BV(64, uint64(n))))
+	} else {
+		inb = Bin(OUlt, t64, BV(64, uint64(n)))
+	}
+	if !ex.Branch(inb) {
+		panic(goRuntimeError(fmt.Sprintf("runtime error: index out of range [symbolic] with length %d", n)))
+	}
+	res := BV(8, uint64(x[n-1]))
+	for i := n - 2; i >= 0; i-- {
+		res = Ite(Eq(si.t, BV(w, uint64(i))), BV(8, uint64(x[i])), res)
+	}
+	return mkVal(types.Uint8, res)
+}
+
+// symElemPtr is the address of elems[idx] for a symbolic idx; it only ever
+// reaches load instructions (see symSelectable).
+type symElemPtr struct {
+	elems []value
+	idx   sym
+}
+
+// symSelectable: the element address is only loaded from, and the table is
+// small and holds concrete integers, so the read can be an if-then-else term.
+func symSelectable(instr *ssa.IndexAddr, elems []value) bool {
+	if len(elems) == 0 || len(elems) > 256 {
+		return false
+	}
+	refs := instr.Referrers()
+	if refs == nil || len(*refs) == 0 {
+		return false
+	}
+	for _, r := range *refs {
+		u, ok := r.(*ssa.UnOp)
+		if !ok || u.Op != token.MUL {
+			return false
+		}
+	}
+	for _, e := range elems {
+		if _, ok := elemGroupKey(e); !ok {
+			return false
+		}
+	}
+	return true
+}
+
+// elemGroupKey identifies a table element up to observable identity.
+func elemGroupKey(e value) (interface{}, bool) {
+	switch x := e.(type) {
+	case []value:
+		if x == nil {
+			return "nilslice", true
+		}
+		if len(x) == 0 {
+			return "emptyslice", true
+		}
+		return [2]interface{}{&x[0], len(x)}, true
+	case *value:
+		return x, true
+	case string:
+		return "s:" + x, true
+	case bool:
+		return x, true
+	}
+	if u, k, ok := intInfo(e); ok {
+		return [2]interface{}{u, k}, true
+	}
+	return nil, false
+}
+
+func (p symElemPtr) load() value {
+	n := len(p.elems)
+	t64 := Resize(p.idx.t, 64, kindSigned(p.idx.k))
+	var inb *Term
+	if kindSigned(p.idx.k) {
+		inb = And(Bin(OSle, BV(64, 0), t64), Bin(OSlt, t64, BV(64, uint64(n))))
+	} else {
+		inb = Bin(OUlt, t64, BV(64, uint64(n)))
+	}
+	if !ex.Branch(inb) {
+		panic(goRuntimeError(fmt.Sprintf("runtime error: index out of range [symbolic] with length %d", n)))
+	}
+	if _, _, isInt := intInfo(p.elems[0]); !isInt {
+		// fork once per distinct element rather than once per index
+		var keys []interface{}
+		groups := map[interface{}][]int{}
+		for i, e := range p.elems {
+			k, _ := elemGroupKey(e)
+			if _, seen := groups[k]; !seen {
+				keys = append(keys, k)
+			}
+			groups[k] = append(groups[k], i)
+		}
+		alts := make([]*Term, len(keys))
+		for gi, k := range keys {
+			var ors []*Term
+			for _, i := range groups[k] {
+				ors = append(ors, Eq(t64, BV(64, uint64(i))))
+			}
+			alts[gi] = Or(ors...)
+		}
+		// the largest group is expressed as "none of the others" to keep terms small
+		big := 0
+		for gi, k := range keys {
+			if len(groups[k]) > len(groups[keys[big]]) {
+				big = gi
+			}
+		}
+		var others []*Term
+		for gi := range keys {
+			if gi != big {
+				others = append(others, alts[gi])
+			}
+		}
+		alts[big] = Not(Or(others...))
+		g := ex.Fork("tbl", alts)
+		return copyVal(p.elems[groups[keys[g]][0]])
+	}
+	u, k, _ := intInfo(p.elems[n-1])
+	w := kindBits(k)
+	res := BV(w, u)
+	for i := n - 2; i >= 0; i-- {
+		u, _, _ := intInfo(p.elems[i])
+		res = Ite(Eq(t64, BV(64, uint64(i))), BV(w, u), res)
+	}
+	return mkVal(k, res)
 }
